@@ -71,6 +71,21 @@ func (g *gen) jsonString() string {
 }
 
 func (g *gen) c16content() []byte {
+	b := g.c16body()
+	// what a loader may put in front of or behind the document: a byte order mark, white space JSON allows and white
+	// space only JavaScript allows (JSON.parse rejects U+FEFF, U+00A0, U+2028 outside strings, form feed, vertical tab)
+	if g.r.Chance(8) {
+		pre := []string{"\xEF\xBB\xBF", " \t\r\n", "\xC2\xA0", "\x0c", "\x0b", "\xE2\x80\xA8", "\xEF\xBB\xBF\xEF\xBB\xBF"}[g.r.Intn(7)]
+		g.st.Hit("content:prefix")
+		if g.r.Chance(70) {
+			return append([]byte(pre), b...)
+		}
+		return append(b, []byte(pre)...)
+	}
+	return b
+}
+
+func (g *gen) c16body() []byte {
 	r := g.r
 	switch x := r.Intn(100); {
 	case x < 50: // valid JSON (Go's encoder, HTML escaping off so raw <, >, & and U+2028 stay in the text)
